@@ -90,12 +90,12 @@ func newAes256Sha256RsaPssAsymmetric(localKey *rsa.PrivateKey, remoteKey *rsa.Pu
 		nonceLength            = 32
 	)
 
-	if localKey != nil && (localKey.PublicKey.Size() < minAsymmetricKeyLength || localKey.PublicKey.Size() > maxAsymmetricKeyLength) {
+	if localKey != nil && (localKey.PublicKey.N.BitLen() < minAsymmetricKeyLength*8 || localKey.PublicKey.N.BitLen() > maxAsymmetricKeyLength*8) {
 		msg := fmt.Sprintf("local key size should be %d-%d bytes, got %d bytes", minAsymmetricKeyLength, maxAsymmetricKeyLength, localKey.PublicKey.Size())
 		return nil, errors.New(msg)
 	}
 
-	if remoteKey != nil && (remoteKey.Size() < minAsymmetricKeyLength || remoteKey.Size() > maxAsymmetricKeyLength) {
+	if remoteKey != nil && (remoteKey.N.BitLen() < minAsymmetricKeyLength*8 || remoteKey.N.BitLen() > maxAsymmetricKeyLength*8) {
 		msg := fmt.Sprintf("remote key size should be %d-%d bytes, got %d bytes", minAsymmetricKeyLength, maxAsymmetricKeyLength, remoteKey.Size())
 		return nil, errors.New(msg)
 	}
